@@ -581,7 +581,16 @@ func runHedgedRetry(t harness.TB, st *harness.Stats, sc hedgedScen) {
 			}
 			return 0, compose.EA
 		}
+		// every result the policy classifies goes through this predicate: a failure verdict and the policy's OnFailure event
+		// go together, whatever the other branches of the execution are doing meanwhile
 		rb := retrypolicy.Builder[int]().WithMaxRetries(sc.MaxRetries).
+			HandleIf(func(_ int, err error) bool {
+				if err != nil {
+					hit("classified-as-failure")
+				}
+				return err != nil
+			}).
+			OnFailure(func(failsafe.ExecutionEvent[int]) { hit("retry.OnFailure") }).
 			OnRetryScheduled(func(failsafe.ExecutionScheduledEvent[int]) { hit("OnRetryScheduled") }).
 			OnRetry(func(failsafe.ExecutionEvent[int]) { hit("OnRetry") }).
 			OnRetriesExceeded(func(failsafe.ExecutionEvent[int]) { hit("OnRetriesExceeded") }).
@@ -714,6 +723,11 @@ func runHedgedRetry(t harness.TB, st *harness.Stats, sc hedgedScen) {
 		}
 		if c["OnAbort"] != 0 {
 			bad("abort-without-abort-condition", "OnAbort fired %d times with no abort condition configured", c["OnAbort"])
+		}
+		if c["retry.OnFailure"] != c["classified-as-failure"] {
+			// (both counts are final: they were read after every invocation and every announced retry had entered, and a
+			// branch delivers its event before it returns what the caller or another retry round then sees)
+			bad("policy-failure-event", "the retry policy classified %d results as failures but its OnFailure listener fired %d times", c["classified-as-failure"], c["retry.OnFailure"])
 		}
 		if c["OnRetry"] > c["OnRetryScheduled"] {
 			bad("retry-without-schedule", "OnRetry %d > OnRetryScheduled %d", c["OnRetry"], c["OnRetryScheduled"])
